@@ -56,83 +56,8 @@ def role_link_rule(M, rep, R3, ctx):
     return n3
 
 
-def run(M, rep, tier, only=None):
-    ctx = Ctx(M)
-    R1 = rep.rule("C04.R1", "entity deletion = delete_all on the file root with the item's (subtree) ids", floor=3,
-                  technique="must-end-in on all abstract paths; receiver identity; dependency of the id list")
-    R2 = rep.rule("C04.R2", "link-list deletion stays local (never delete_all)", floor=2, technique="event absence on all paths")
-    R3 = rep.rule("C04.R3", "role-link deleters never delete their owner (delete_if_empty=False)", floor=9,
-                  technique="argument of every H5Group.delete on the entity's own group")
-    R4 = rep.rule("C04.R4", "delete_all matches by entity_id below its receiver", floor=1, technique="guard dependency in raw mode")
-    R5 = rep.rule("C04.R5", "wrong-kind refusal precedes deletion", floor=4, technique="event order on all paths")
-
-    from .common import tree_finders
-    tf = tree_finders(ctx)
-    tname = lambda k: tf[k].node.name if tf.get(k) is not None else "_find_" + k
-    for cn, tree, pub in (("Container", None, None), ("SectionContainer", tname("sections"), "find_sections"),
-                          ("SourceContainer", tname("sources"), "find_sources")):
-        f = ctx.member(cn, "__delitem__")
-        key = cn + ".__delitem__"
-        if f is None:
-            rep.bad(R1, key, "required mechanism not found")
-            continue
-        paths = ctx.paths(f, cn)
-        bad = None
-        nok = 0
-        for p in paths:
-            if not p.normal:
-                continue
-            da = [e for e in p.events if e.kind == "layer" and e.op.endswith(".delete_all")]
-            if not da:
-                bad = (p, "a normal path deletes nothing")
-                break
-            e = da[-1]
-            if e.recv.t != ROOT:
-                bad = (p, "delete_all is scoped to %s instead of the file root group: links elsewhere in the file survive" % show(e.recv.t))
-                break
-            eid = e.kw.get("eid") or (e.args[0] if e.args else None)
-            txt = show(eid.t) if eid is not None else ""
-            if ".id" not in txt and "entity_id" not in txt:
-                bad = (p, "the id list %s does not derive from the deleted item's id" % txt[:80])
-                break
-            if tree and not ({tree.lstrip("_"), pub} & called_names(eid.t)):
-                bad = (p, "the id list does not include the item's subtree (%s)" % tree)
-                break
-            if cn == "SourceContainer" and txt.count("id") < 2:
-                bad = (p, "the id list misses the source itself")
-                break
-            nok += 1
-        if bad:
-            rep.bad(R1, key, bad[1], site=f.file + ":%d" % f.node.lineno, detail=describe_path(bad[0]))
-        elif not nok:
-            rep.bad(R1, key, "no normal path", site=f.file)
-        else:
-            rep.ok(R1, key, "%d normal paths" % nok)
-
-    for cn in ("LinkContainer", "SourceLinkContainer"):
-        f = ctx.member(cn, "__delitem__")
-        key = cn + ".__delitem__"
-        if f is None:
-            rep.bad(R2, key, "required mechanism not found")
-            continue
-        bad = None
-        nok = 0
-        for p in ctx.paths(f, cn):
-            for e in p.events:
-                if e.kind == "layer" and e.op.endswith(".delete_all"):
-                    bad = (p, "removing a link reaches delete_all: the linked entity itself would be deleted")
-            if p.normal and bad is None:
-                dl = [e for e in p.events if e.kind == "layer" and e.op.endswith(".delete")]
-                if not dl or any(e.recv.t != ("attr", ("self",), "_backend") for e in dl):
-                    bad = (p, "the link is not removed from the list's own group")
-                else:
-                    nok += 1
-        rep.check(R2, key, bad is None and nok > 0, bad[1] if bad else "no normal path", site=f.file + ":%d" % f.node.lineno,
-                  detail=describe_path(bad[0]) if bad else None)
-
-    n3 = role_link_rule(M, rep, R3, ctx)
-
-    # ---- R4: delete_all analysed with the other layer members kept as storage events
+def delete_all_rule(M, rep, R4):
+    """delete_all unlinks exactly the children whose entity_id is in the id list, all of them (shared with C02)"""
     from nixsa.layer import layer_config
     rcfg = layer_config(M)
     rcfg.compose = False
@@ -218,6 +143,94 @@ def run(M, rep, tier, only=None):
         rep.check(R6, "H5Group.delete", bad is None and nchild > 0, ("H5Group.delete %s: removing one link can take the owner of the list (or "
                   "its ancestors) with it" % bad[2]) if bad else "the named child is never unlinked", site=bad[1].site if bad else dl.file,
                   detail=describe_path(bad[0]) if bad else None)
+
+
+
+def run(M, rep, tier, only=None):
+    ctx = Ctx(M)
+    R1 = rep.rule("C04.R1", "entity deletion = delete_all on the file root with the item's (subtree) ids", floor=3,
+                  technique="must-end-in on all abstract paths; receiver identity; dependency of the id list")
+    R2 = rep.rule("C04.R2", "link-list deletion stays local (never delete_all)", floor=2, technique="event absence on all paths")
+    R3 = rep.rule("C04.R3", "role-link deleters never delete their owner (delete_if_empty=False)", floor=9,
+                  technique="argument of every H5Group.delete on the entity's own group")
+    R4 = rep.rule("C04.R4", "delete_all matches by entity_id below its receiver", floor=1, technique="guard dependency in raw mode")
+    R5 = rep.rule("C04.R5", "wrong-kind refusal precedes deletion", floor=4, technique="event order on all paths")
+
+    from .common import tree_finders
+    tf = tree_finders(ctx)
+    tname = lambda k: tf[k].node.name if tf.get(k) is not None else "_find_" + k
+    for cn, tree, pub in (("Container", None, None), ("SectionContainer", tname("sections"), "find_sections"),
+                          ("SourceContainer", tname("sources"), "find_sources")):
+        f = ctx.member(cn, "__delitem__")
+        key = cn + ".__delitem__"
+        if f is None:
+            rep.bad(R1, key, "required mechanism not found")
+            continue
+        paths = ctx.paths(f, cn)
+        bad = None
+        nok = 0
+        for p in paths:
+            if not p.normal:
+                continue
+            da = [e for e in p.events if e.kind == "layer" and e.op.endswith(".delete_all")]
+            if not da:
+                bad = (p, "a normal path deletes nothing")
+                break
+            e = da[-1]
+            if e.recv.t != ROOT:
+                bad = (p, "delete_all is scoped to %s instead of the file root group: links elsewhere in the file survive" % show(e.recv.t))
+                break
+            eid = e.kw.get("eid") or (e.args[0] if e.args else None)
+            txt = show(eid.t) if eid is not None else ""
+            if ".id" not in txt and "entity_id" not in txt:
+                bad = (p, "the id list %s does not derive from the deleted item's id" % txt[:80])
+                break
+            if tree and not ({tree.lstrip("_"), pub} & called_names(eid.t)):
+                bad = (p, "the id list does not include the item's subtree (%s)" % tree)
+                break
+            if cn == "SourceContainer" and txt.count("id") < 2:
+                bad = (p, "the id list misses the source itself")
+                break
+            nok += 1
+        if bad:
+            rep.bad(R1, key, bad[1], site=f.file + ":%d" % f.node.lineno, detail=describe_path(bad[0]))
+        elif not nok:
+            rep.bad(R1, key, "no normal path", site=f.file)
+        else:
+            rep.ok(R1, key, "%d normal paths" % nok)
+
+    for cn in ("LinkContainer", "SourceLinkContainer"):
+        f = ctx.member(cn, "__delitem__")
+        key = cn + ".__delitem__"
+        if f is None:
+            rep.bad(R2, key, "required mechanism not found")
+            continue
+        bad = None
+        nok = 0
+        for p in ctx.paths(f, cn):
+            for e in p.events:
+                if e.kind == "layer" and e.op.endswith(".delete_all"):
+                    bad = (p, "removing a link reaches delete_all: the linked entity itself would be deleted")
+            if p.normal and bad is None:
+                dl = [e for e in p.events if e.kind == "layer" and e.op.endswith(".delete")]
+                if not dl or any(e.recv.t != ("attr", ("self",), "_backend") for e in dl):
+                    bad = (p, "the link is not removed from the list's own group")
+                elif any(a[0] == "isinst" and a[1] == ("param", "item") and "Entity" in a[2] and v is True for a, v in p.decisions) and \
+                        any(e.key is None or not any(
+                            x and ((x[0] == "rd" and x[1] == "attr" and x[3] == ("const", "entity_id") and "item" in params_of(x[2])) or
+                                   (x[0] == "attr" and x[2] == "id" and "item" in params_of(x[1])) and
+                                   not any(y and y[0] in ("lres", "elem") for y in subterms(x)))
+                            for x in subterms(e.key.t)) for e in dl):
+                    bad = (p, "an entity handed in is not removed by its own id (the entry is looked up again, e.g. by the entity's name): "
+                              "with two same-named entries (sources of different parents) the wrong link is removed")
+                else:
+                    nok += 1
+        rep.check(R2, key, bad is None and nok > 0, bad[1] if bad else "no normal path", site=f.file + ":%d" % f.node.lineno,
+                  detail=describe_path(bad[0]) if bad else None)
+
+    n3 = role_link_rule(M, rep, R3, ctx)
+
+    delete_all_rule(M, rep, R4)
 
     # ---- R5
     for cn in ("Container", "SectionContainer", "SourceContainer", "LinkContainer"):
